@@ -140,3 +140,29 @@ Proof.
     + intros [= <-]. eauto.
     + intros H. eapply IH; eauto.
 Qed.
+
+(* ---- the ancestor-or-equal relation between voxels (pure integer form; Voxel.v proves it equivalent to "the regions meet") ---- *)
+(* one-axis relation: the coarser index is the ancestor of the finer *)
+Definition rel1 (z1 i1 z2 i2 : Z) : Prop :=
+  if z1 <=? z2 then anc (z2 - z1) i2 = i1 else anc (z1 - z2) i1 = i2.
+Definition overlaps (i j : eid) : Prop :=
+  rel1 (eh i) (ex i) (eh j) (ex j) /\ rel1 (eh i) (ey i) (eh j) (ey j) /\ rel1 (ev i) (ef i) (ev j) (ef j).
+Definition rel1b (z1 i1 z2 i2 : Z) : bool :=
+  if z1 <=? z2 then anc (z2 - z1) i2 =? i1 else anc (z1 - z2) i1 =? i2.
+Definition overlapsb (i j : eid) : bool :=
+  rel1b (eh i) (ex i) (eh j) (ex j) && rel1b (eh i) (ey i) (eh j) (ey j) && rel1b (ev i) (ef i) (ev j) (ef j).
+Lemma rel1b_spec z1 i1 z2 i2 : rel1b z1 i1 z2 i2 = true <-> rel1 z1 i1 z2 i2.
+Proof. unfold rel1b, rel1. destruct (z1 <=? z2); apply Z.eqb_eq. Qed.
+Lemma overlapsb_spec i j : overlapsb i j = true <-> overlaps i j.
+Proof. unfold overlapsb, overlaps. rewrite !andb_true_iff, !rel1b_spec. tauto. Qed.
+Lemma rel1_sym z1 i1 z2 i2 : rel1 z1 i1 z2 i2 <-> rel1 z2 i2 z1 i1.
+Proof.
+  unfold rel1. destruct (Z.leb_spec z1 z2), (Z.leb_spec z2 z1); try tauto; try lia.
+  assert (z1 = z2) by lia. subst. rewrite Z.sub_diag, !anc_0. split; congruence.
+Qed.
+Lemma rel1_refl z i : rel1 z i z i.
+Proof. unfold rel1. rewrite Z.leb_refl, Z.sub_diag. apply anc_0. Qed.
+Lemma overlaps_sym i j : overlaps i j <-> overlaps j i.
+Proof. unfold overlaps. rewrite (rel1_sym (eh i)), (rel1_sym (eh i) (ey i)), (rel1_sym (ev i)). tauto. Qed.
+Lemma overlaps_refl i : overlaps i i.
+Proof. unfold overlaps. repeat split; apply rel1_refl. Qed.
